@@ -130,7 +130,8 @@ def check_cases(chk, cases, profiles, full):
     variants = [{}, {'buffersize': 1}, {'buffersize': 2, 'cache': False}, {'presorted': True}]
     jobs = []
     for ci, case in enumerate(cases):
-        combos = [(p, v) for p in profiles for v in variants] if full else \
+        # thorough: every value profile on the plain call, every strategy variant on two rotating profiles
+        combos = ([(p, {}) for p in profiles] + [(profiles[(ci + k) % len(profiles)], v) for k in (0, 3) for v in variants[1:]]) if full else \
             [(profiles[ci % len(profiles)], {}), (profiles[(ci + 1) % len(profiles)], variants[1 + ci % 3])]
         jobs += [(ci, case, pname, variant) for pname, variant in combos]
     for (ci, case, pname, variant), (probs, drifts) in zip(jobs, common.pmap(_job, jobs)):
